@@ -94,7 +94,6 @@ func loopRangesOver(H *ssa.BasicBlock, pred func(ssa.Value) bool) bool {
 	return isLenOf(pred)(b.Y) || isLenOf(pred)(b.X)
 }
 
-
 // nonNegArm recognises a test that separates negative output values: the
 // required arm is the one on which Value >= 0 is known.
 func nonNegArm(i *ssa.If) (bool, bool) {
